@@ -279,6 +279,44 @@ def cond_atoms(n, polarity=True):
     return [(canon(n), polarity)]
 
 
+def assigned_roots(fn, e):
+    """only explicit assignment / ++ / -- / declaration (no call effects)."""
+    out = set()
+    n = fn.nodes[e] if isinstance(e, int) else None
+    if n is None:
+        return out
+    k = n.get("k")
+
+    def root(x):
+        while x is not None:
+            kk = x.get("k")
+            if kk == "ref":
+                out.add(x.get("n"))
+                return
+            if kk == "member":
+                out.add(x.get("n"))
+                x = x.child("b")
+            elif kk in ("index", "cast", "un"):
+                x = x.child("b") if kk == "index" else x.child("e")
+            elif kk == "call" and "obj" in x:
+                x = x.child("obj")
+            else:
+                return
+    if k == "bin" and n["op"].endswith("=") and n["op"] not in ("==", "!=", "<=", ">="):
+        root(n.child("l"))
+    elif k == "un" and n["op"] in ("++", "--"):
+        root(n.child("e"))
+    elif k == "call" and n.get("ck") == "operator" and n.get("op") in ("=", "+=", "-=", "++", "--"):
+        if "obj" in n:
+            root(n.child("obj"))
+        elif n.get("args"):
+            root(fn.nodes[n["args"][0]])
+    elif k == "decl":
+        for v in n.get("vars", []):
+            out.add(v["n"])
+    return out
+
+
 def written_roots(fn, e):
     """names of variables (root identifiers / member names) that the element
     may modify: assignment, ++/--, compound assignment, non-const method call,
@@ -351,14 +389,15 @@ class BranchFacts(object):
     reaching pos since the last write to anything the atom mentions.
     """
 
-    def __init__(self, fn, extra_kill=None):
+    def __init__(self, fn, extra_kill=None, kill="calls"):
         self.fn = fn
         self.extra_kill = extra_kill
+        kill_fn = written_roots if kill == "calls" else assigned_roots
 
         def transfer(st, pos, e):
             if not st:
                 return st
-            w = written_roots(fn, e)
+            w = kill_fn(fn, e)
             if self.extra_kill:
                 w |= self.extra_kill(fn, e)
             if not w:
@@ -379,7 +418,8 @@ class BranchFacts(object):
                 if len(blk.succs) != 2:
                     return st
                 pol = (si == 0)
-                return st | frozenset(cond_atoms(c, pol))
+                ec = blk.effective_cond()
+                return st | frozenset(cond_atoms(c, pol)) | frozenset(cond_atoms(ec, pol))
             if cls == "SwitchStmt":
                 cases = t.get("cases", [])
                 if si < len(cases) and isinstance(cases[si], dict) and "v" in cases[si]:
